@@ -70,7 +70,8 @@ class CFG:
         for bid, b in self.blocks.items():
             if b.get('tk') == 'CXXTryStmt' and bid not in haspred and bid != self.entry_block:
                 self.try_blocks.append(bid)
-                self.succ[self.block_in[self.entry_block]].append((self.block_in[bid], ('eh', bid)))
+                src = self._try_body_entry(b) or self.block_in[self.entry_block]
+                self.succ[src].append((self.block_in[bid], ('eh', bid)))
         self.pred = [[] for _ in self.V]
         for v, ss in enumerate(self.succ):
             for (w, lab) in ss:
@@ -80,6 +81,32 @@ class CFG:
         self._dom = None
         self._pdom = None
         self._reach = {}
+
+    def _try_body_entry(self, b):
+        """block-entry vertex of the block through which control enters the body of the try statement
+        that terminates block b (first body vertex met in a BFS from the function entry)"""
+        t = b.get('term')
+        if t is None:
+            return None
+        tn = Node(self.fn, t)
+        ch = tn.children
+        if not ch:
+            return None
+        body = {x.i for x in ch[0].walk()}
+        seen = {self.block_in[self.entry_block]}
+        queue = [self.block_in[self.entry_block]]
+        qi = 0
+        while qi < len(queue):
+            v = queue[qi]
+            qi += 1
+            vx = self.V[v]
+            if vx.node is not None and vx.node.i in body:
+                return self.block_in[vx.block]
+            for (w, lab) in self.succ[v]:
+                if w not in seen:
+                    seen.add(w)
+                    queue.append(w)
+        return None
 
     def _add(self, block, idx, el, node):
         v = len(self.V)
